@@ -375,7 +375,8 @@ class Report:
         lines = []
         for k in self.known_hits:
             lines.append("KNOWN-FINDING: property=%s %s" % (self.prop, k.get("what", k["id"])))
-        # one replay file per violation (first 5)
+        # one replay file per violation (first 5); violations that come with a concrete failing input first
+        self.violations.sort(key=lambda v: not v["concrete"])
         for v in self.violations[:5]:
             body = json.dumps(v, sort_keys=True, default=str)
             h = hashlib.sha1(body.encode()).hexdigest()[:12]
